@@ -401,7 +401,8 @@ Proof.
   apply check_acc in H. destruct H as [Hf H].
   assert (Ho : ops s o = None) by (destruct (ops s o); [discriminate | reflexivity]).
   destruct (timer_at x k) as [t|] eqn:Et; [|discriminate].
-  apply check_acc in H. destruct H as [_ H]. destruct (t_st t) eqn:Est; try discriminate.
+  apply check_acc in H. destruct H as [_ H]. apply check_acc in H. destruct H as [_ H].
+  destruct (t_st t) eqn:Est; try discriminate.
   apply check_acc in H. destruct H as [_ H].
   destruct (negb (upgradable x) || negb (a_rx x)).
   { injection H as <-. exists g. eapply refs_keep; [exact R|]. kp s. }
@@ -454,7 +455,8 @@ Proof.
   apply check_acc in H. destruct H as [_ H]. apply check_acc in H. destruct H as [_ H].
   destruct (t_st t) eqn:Est; try discriminate.
   - injection H as <-. exists g. eapply refs_keep; [exact R|]. kp s.
-  - apply check_acc in H. destruct H as [_ H]. apply check_acc in H. destruct H as [Hc H].
+  - apply check_acc in H. destruct H as [_ H]. apply check_acc in H. destruct H as [_ H].
+    apply check_acc in H. destruct H as [Hc H].
     apply Bool.andb_true_iff in Hc. destruct Hc as [L1 _]. apply Nat.leb_le in L1. injection H as <-.
     eexists. eapply (refs_unpark _ _ a x k t o _ R Hx Et Est); [cbn; lia|].
     intros k0 t0 o0 Hk Hs. eapply put_timer_not_parked; [|exact Hk|exact Hs]. cbn. intros; discriminate.
